@@ -141,4 +141,58 @@ example : isMarketOpen 6 1 0 0 0 (2 ^ 32 - 1) 0 = false := by decide
 example : isMarketOpen 6 1 0 0 0 (2 ^ 32 - 1) 32 = true := by decide
 example : freshSpec 100 90 10 0 ∧ ¬ freshSpec 100 90 10 1 := by unfold freshSpec; omega
 
+/-! ### Non-vacuity added by the audit (B6): the theorems instantiated on concrete inputs -/
+-- `fresh_iff` in the ordinary range and at the saturating corner (`now − ts` overflows i64)
+example : freshCode 100 90 12 2 :=
+  (fresh_iff 100 90 12 2 (by omega) (by omega) (by omega) (by omega)).2 (by unfold freshSpec; omega)
+example : ¬ freshCode (2 ^ 63 - 1) (-(2 ^ 63)) (2 ^ 32 - 1) 0 := fun h =>
+  absurd ((fresh_iff (2 ^ 63 - 1) (-(2 ^ 63)) (2 ^ 32 - 1) 0 (by omega) (by omega) (by omega) (by omega)).1 h)
+    (by unfold freshSpec; omega)
+-- `isMarketOpen_spec` with tracking enabled (flags 7 = open + tracking + seconds), RegularHours:
+-- the open market yields the exact-integer freshness of report and last update
+example : freshSpec 100 90 12 2 :=
+  ((isMarketOpen_spec 3 7 2 90 100 12 0 (by omega) (by omega) (by omega) (by omega)).1 (by decide)).2.2 2 (by decide)
+-- ... and conversely (the `←` direction builds an open market from the three clauses)
+example : isMarketOpen 3 7 2 90 100 12 0 = true :=
+  (isMarketOpen_spec 3 7 2 90 100 12 0 (by omega) (by omega) (by omega) (by omega)).2
+    ⟨by decide, by decide, fun d hd => by
+      have : d = 2 := by
+        have e : lastUpdateDiffSecs 7 2 = some 2 := by decide
+        rw [e] at hd; exact (Option.some.inj hd).symm
+      subst this; unfold freshSpec; omega⟩
+-- `stale_is_closed`: the report itself is fresh (10 ≤ 12) but the last update is 5 s older (15 > 12);
+-- status RegularHours and the open flag would otherwise open the market
+example : isMarketOpen 3 7 5 90 100 12 0 = false :=
+  stale_is_closed 3 7 5 90 100 12 0 5 (by omega) (by omega) (by omega) (by omega) (by decide) (by omega)
+example : isMarketOpen 3 7 2 90 100 12 0 = true ∧ isMarketOpen 3 7 5 90 100 12 0 = false := by decide
+-- nanosecond tracking (flags 3): 2.5 s are counted as 3 s
+example : lastUpdateDiffSecs 3 2500000000 = some 3 := by decide
+example : isMarketOpen 3 3 2500000000 90 100 13 0 = true ∧ isMarketOpen 3 3 2500000000 90 100 12 0 = false := by
+  decide
+-- `untracked`: price flag bit 1 clear; the stale report (age 100 > timeout 0) does not matter
+example : isMarketOpen 3 1 0 0 100 0 0 = true :=
+  (untracked 3 1 0 0 100 0 0 (by decide)).trans (by decide)
+-- `diff_secs_ceil` on a non-multiple
+example : 2500000000 ≤ divCeil 2500000000 1000000000 * 1000000000 ∧
+    divCeil 2500000000 1000000000 * 1000000000 < 2500000000 + 1000000000 := diff_secs_ceil 2500000000
+
+/-- AUDIT (B6), new: **openness only decays with time** — with the same report, status and policy,
+a market open at `now'` was open at every earlier instant `now ≤ now'`; equivalently, once a
+report has gone stale it stays closed until a new report arrives (covers tracked and untracked
+reports, and timestamps in the future of `now`). -/
+theorem open_earlier (statusValue priceFlags diff : Nat) (ts now now' : Int) (timeout polFlags : Nat)
+    (hn : -(2 ^ 63) ≤ now ∧ now ≤ 2 ^ 63 - 1) (hn' : -(2 ^ 63) ≤ now' ∧ now' ≤ 2 ^ 63 - 1)
+    (ht : -(2 ^ 63) ≤ ts ∧ ts ≤ 2 ^ 63 - 1) (hto : timeout < 2 ^ 32) (hd : diff < 2 ^ 32)
+    (hle : now ≤ now')
+    (h : isMarketOpen statusValue priceFlags diff ts now' timeout polFlags = true) :
+    isMarketOpen statusValue priceFlags diff ts now timeout polFlags = true := by
+  obtain ⟨h1, h2, h3⟩ := (isMarketOpen_spec statusValue priceFlags diff ts now' timeout polFlags hn' ht hto hd).1 h
+  refine (isMarketOpen_spec statusValue priceFlags diff ts now timeout polFlags hn ht hto hd).2 ⟨h1, h2, ?_⟩
+  intro d hd'
+  have := h3 d hd'
+  unfold freshSpec at this ⊢
+  omega
+example : isMarketOpen 3 7 2 90 95 12 0 = true :=
+  open_earlier 3 7 2 90 95 100 12 0 (by omega) (by omega) (by omega) (by omega) (by omega) (by omega) (by decide)
+
 end Gmx.C27
